@@ -769,9 +769,15 @@ fn parts(tier: Tier) -> Vec<PartDef> {
         ),
         PartDef::new(
             "two-consecutive-checks",
-            Cfg::new("C04/two-consecutive-checks").dev(tier.pick(5, 7)),
-            json!({"apps": "1..2", "iterations": 2, "alphabets": "as flow-nocup, chosen independently per check", "exploration": format!("all histories within {} non-default choices", tier.pick(5, 7))}),
+            Cfg::new("C04/two-consecutive-checks").dev(tier.pick(6, 8)),
+            json!({"apps": "1..2", "iterations": 2, "alphabets": "as flow-nocup, chosen independently per check", "exploration": format!("all histories within {} non-default choices", tier.pick(6, 8))}),
             move |ctx| run_iter(ctx, tier, false, false, 2),
+        ),
+        PartDef::new(
+            "three-consecutive-checks",
+            Cfg::new("C04/three-consecutive-checks").dev(tier.pick(4, 6)),
+            json!({"apps": "1..2", "iterations": 3, "alphabets": "as flow-nocup, chosen independently per check", "exploration": format!("all histories within {} non-default choices", tier.pick(4, 6))}),
+            move |ctx| run_iter(ctx, tier, false, false, 3),
         ),
         PartDef::new(
             "reboot-wait-with-pings",
